@@ -15,13 +15,14 @@ import (
 // loaded ones are scanned).
 
 type typeClasses struct {
+	hasBytes   map[int]bool               // root id -> the allocation type contains byte cells by value
 	containers map[string]map[string]bool // atom -> allocation root types that contain it by value (incl. itself)
 	ids        map[string]int
 	seenT      map[string]bool
 }
 
 func newTypeClasses() *typeClasses {
-	return &typeClasses{containers: map[string]map[string]bool{}, ids: map[string]int{}, seenT: map[string]bool{}}
+	return &typeClasses{hasBytes: map[int]bool{}, containers: map[string]map[string]bool{}, ids: map[string]int{}, seenT: map[string]bool{}}
 }
 
 // atomKey: named/unnamed struct types and the slot types of pointer-like values are atoms; basic types are not
@@ -88,6 +89,7 @@ func (tc *typeClasses) scanType(t types.Type) {
 		return
 	}
 	tc.seenT[key] = true
+	tc.hasBytes[tc.id(key)] = containsByte(t, 0)
 	atoms := map[string]bool{}
 	tc.contained(t, atoms, 0)
 	for a := range atoms {
@@ -116,10 +118,33 @@ func (tc *typeClasses) scanPackage(p *types.Package, seen map[*types.Package]boo
 	}
 }
 
+const bytesClassID = 1 // plain byte arrays (make([]byte), [N]byte variables, string data)
+
+// containsByte: does a value of type t hold byte cells by value?
+func containsByte(t types.Type, depth int) bool {
+	if depth > 12 {
+		return true
+	}
+	if w, _, ok := intW(t); ok {
+		return w == 8
+	}
+	switch u := t.Underlying().(type) {
+	case *types.Struct:
+		for i := 0; i < u.NumFields(); i++ {
+			if containsByte(u.Field(i).Type(), depth+1) {
+				return true
+			}
+		}
+	case *types.Array:
+		return containsByte(u.Elem(), depth+1)
+	}
+	return false
+}
+
 func (tc *typeClasses) id(root string) int {
 	id, ok := tc.ids[root]
 	if !ok {
-		id = len(tc.ids) + 1
+		id = len(tc.ids) + 2 // 1 is reserved for plain byte arrays
 		tc.ids[root] = id
 	}
 	return id
@@ -181,11 +206,41 @@ func (fc *fnCtx) classAssume(v *val, t types.Type, guard string) {
 		if _, isIface := et.Underlying().(*types.Interface); isIface && false {
 			return
 		}
+		if guard == "#skip" {
+			return
+		}
+		if w, _, isInt := intW(et); isInt && w == 8 {
+			// byte references designate objects that hold bytes
+			g.declFun("CLS", "(Int) Int")
+			g.declFun("HASBYTES", "(Int) Bool")
+			if !g.specDefs["hasbytes:1"] {
+				g.specDefs["hasbytes:1"] = true
+				g.assume(fmt.Sprintf("(HASBYTES %d)", bytesClassID))
+			}
+			f := fmt.Sprintf("(or (= %s 0) (< %s (- %d)) (HASBYTES (CLS %s)))", v.t[0], v.t[0], strRefBase, v.t[0])
+			if guard != "" && guard != "true" {
+				f = fmt.Sprintf("(=> %s %s)", guard, f)
+			}
+			g.assume(f)
+			return
+		}
 		ids := g.w.classes.rootIDs(et)
-		if ids == nil || guard == "#skip" {
+		if ids == nil {
 			return
 		}
 		g.declFun("CLS", "(Int) Int")
+		g.declFun("HASBYTES", "(Int) Bool")
+		for _, id := range ids {
+			key := fmt.Sprintf("hasbytes:%d", id)
+			if !g.specDefs[key] {
+				g.specDefs[key] = true
+				if g.w.classes.hasBytes[id] {
+					g.assume(fmt.Sprintf("(HASBYTES %d)", id))
+				} else {
+					g.assume(fmt.Sprintf("(not (HASBYTES %d))", id))
+				}
+			}
+		}
 		parts := []string{fmt.Sprintf("(= %s 0)", v.t[0])}
 		for _, id := range ids {
 			parts = append(parts, fmt.Sprintf("(= (CLS %s) %d)", v.t[0], id))
